@@ -65,6 +65,7 @@ func (l *lineLogger) Log(e any) {
 type realOut struct {
 	kind    string // result | error | panic | capped | parse-error
 	msg     string
+	site    string
 	lines   []string
 	dealt   float64
 	taken   float64
@@ -137,7 +138,7 @@ func realRun(op *wire.Rec, withLog bool) (out *realOut) {
 			if strings.Contains(msg, "event cap") {
 				out.kind = "capped"
 			} else {
-				out.kind, out.msg = "panic", msg
+				out.kind, out.msg, out.site = "panic", msg, panicSite(debug.Stack())
 			}
 		}
 	}()
@@ -174,6 +175,20 @@ func errClass(msg string) string {
 	return "other"
 }
 
+// the innermost frame inside the repository (file:line relative to it) of a panic's stack
+func panicSite(stack []byte) string {
+	for _, l := range strings.Split(string(stack), "\n") {
+		l = strings.TrimSpace(l)
+		if i := strings.Index(l, "/internal/"); i >= 0 && strings.Contains(l, ".go:") {
+			return strings.Fields(l[i+1:])[0]
+		}
+		if i := strings.Index(l, "/pkg/"); i >= 0 && strings.Contains(l, ".go:") && !strings.Contains(l, "/pkg/mod/") && !strings.Contains(l, "pkg/engine/logging") {
+			return strings.Fields(l[i+1:])[0]
+		}
+	}
+	return "?"
+}
+
 func invalidWhat(msg string) string {
 	m := strings.ToLower(msg)
 	for _, w := range []string{"character", "lightcone", "relic", "enemy"} {
@@ -188,6 +203,9 @@ func outRec(name string, o *realOut) *wire.Rec {
 	r := wire.R(name).S("kind", o.kind).I("events", len(o.lines)).S("digest", o.digest())
 	if o.kind == "result" {
 		r.F("dealt", o.dealt).F("taken", o.taken).F("av", o.av).Fs("cd", o.cd).Fs("ct", o.ct)
+	}
+	if o.site != "" {
+		r.S("site", strings.ReplaceAll(o.site, ":", "#"))
 	}
 	if o.msg != "" {
 		r.S("class", errClass(o.msg)).S("msg", strings.ReplaceAll(o.msg, " ", "_"))
